@@ -213,6 +213,27 @@ def and_labels(l0, l1):
     return _labels_ok(out, labels) and len(out) == 1 and set(out[0][1]) == {"a", "b"}
 
 
+def and_labels_uneven(l0, l1, l2, first_short):
+    """items with different numbers of variants (the shorter list is cycled, i.e. its objects are re-used): every
+    emitted object holds exactly the components its label speaks about"""
+    labels = [l0, l1, l2]
+    A = model.ReferenceType("reference", "A")
+    B = model.ReferenceType("reference", "B")
+    short = [(labels[0], {"a": Tok(0)})]
+    long_ = [(labels[1], {"b": Tok(1)}), (labels[2], {"c": Tok(2)})]
+
+    def fake(t, s, visited):
+        return iter(short if t is A else long_)
+
+    order = [A, B] if first_short else [B, A]
+    out = _with_stub(fake, lambda: list(tg.generate_for_and(order, None, [])))
+    if len(out) != 2 or not _labels_ok(out, labels):
+        return False
+    want = [{"a": Tok(0), "b": Tok(1)}, {"a": Tok(0), "c": Tok(2)}]
+    got = [o[1] for o in out]
+    return got == want and out[0][0] == (l0 and l1) and out[1][0] == (l0 and l2)
+
+
 def enum_labels(base, custom):
     """declared value True; custom value True iff supportsCustomValues"""
     vals = [{"name": "A", "value": "a" if base == 0 else 1}]
